@@ -2,7 +2,7 @@
     Statements only; proofs in Proofs/Builder_Proofs.v. *)
 From Coq Require Import ZArith QArith Qround Qabs List Lia.
 From SB Require Import Base.Prelude Base.Num Base.F32 Gen.Generated Model.Codec Model.Traj Model.Utils Model.Rth Model.Builder
-  Proofs.Builder_Proofs Proofs.Utils_Proofs Proofs.BuilderFast_Proofs.
+  Proofs.Builder_Proofs Proofs.Utils_Proofs Proofs.BuilderFast_Proofs Spec.TrajSpec Spec.BuilderSpec Proofs.BuilderSpec_Proofs Model.Poly Spec.BezierSpec.
 Import ListNotations.
 Local Open Scope Z_scope.
 
@@ -98,3 +98,44 @@ Print Assumptions builder_example.
 Theorem hold_closed_form : forall b dur, hold_position_for b dur = hold_fast b dur.
 Proof. exact BuilderFast_Proofs.hold_fast_eq. Qed.
 Print Assumptions hold_closed_form.
+
+(** ---- the builder refines the declarative trajectory (Spec/BuilderSpec.v) ----
+    After ANY sequence of set-start / append-line / hold calls (failing calls
+    leave the builder as it was; durations of any size below 2^32 ms, so the
+    halving above 60 s and the chunking of holds are included) the builder's
+    bytes are exactly the encoding of a well-formed abstract trajectory [T]
+    such that
+      - every segment of [T] is a straight line (no or one stored value per axis),
+      - [T] lasts exactly the sum of the durations the successful calls asked for,
+      - the end point of [T] is the quantisation of the point given to the last
+        successful call: per axis at most the requested coordinate and less than
+        one quantum (the scale) below it, up to the binary32 rounding of the
+        division (relative 2^-23).
+    With C01's [position_exact] (the player's position on [encode_traj T] is the
+    Bezier curve of [T]'s control points) this is the round trip of the property
+    for the x, y, z axes at the end of every call sequence; the yaw axis and
+    the intermediate instants are covered by the correspondence only. *)
+Theorem builder_refines_spec : forall scale flags b0 calls,
+  0 <= scale -> builder_init scale flags = Ok b0 -> Forall call_ok calls ->
+  exists T, builds (fst (brun b0 0 calls)) T /\ total_ms T = snd (brun b0 0 calls) /\ st_scale T = scale.
+Proof. exact BuilderSpec_Proofs.builder_refines_spec. Qed.
+Print Assumptions builder_refines_spec.
+
+(** a segment with two control points on an axis moves on the straight line between them *)
+Theorem linear_segment_is_straight : forall a c u : Q, (bezier QOps [a; c] u == a + (c - a) * u)%Q.
+Proof. exact BuilderSpec_Proofs.bezier_two. Qed.
+Print Assumptions linear_segment_is_straight.
+
+(** non-vacuity: a start position, a line of 150.001 s (split in four), a failing call and a hold *)
+Example builder_refines_example :
+  let calls := [CStart (mkvec4 (100 # 1) (-(55 # 1)) (7 # 2) (725 # 2));
+                CLine (mkvec4 (2000 # 1) (0 # 1) (505 # 1) (90 # 1)) 150001;
+                CLine (mkvec4 (400000 # 1) (0 # 1) (0 # 1) (0 # 1)) 1000;
+                CHold 61000] in
+  Forall call_ok calls /\
+  match builder_init 10 0 with
+  | Ok b0 => snd (brun b0 0 calls) = 211001 /\
+             length (bb_bytes (fst (brun b0 0 calls))) = (9 + 4 * 11 + 2 * 3)%nat
+  | _ => False
+  end.
+Proof. exact BuilderSpec_Proofs.builder_refines_example. Qed.
